@@ -77,15 +77,16 @@ func (l *Lock) updateLockedState(w http.ResponseWriter, r *http.Request, wasCorr
 	attempts++
 
 	if !wasCorrectPassword {
-		if time.Now().UTC().Sub(last) <= l.Modules.LockWindow {
-			if attempts >= l.Modules.LockAfter {
-				lu.PutLocked(time.Now().UTC().Add(l.Modules.LockDuration))
-			}
-
-			lu.PutAttemptCount(attempts)
-		} else {
-			lu.PutAttemptCount(1)
+		if time.Now().UTC().Sub(last) > l.Modules.LockWindow {
+			// Outside of the window: this failure starts a new count
+			attempts = 1
 		}
+
+		if attempts >= l.Modules.LockAfter {
+			lu.PutLocked(time.Now().UTC().Add(l.Modules.LockDuration))
+		}
+
+		lu.PutAttemptCount(attempts)
 	}
 	lu.PutLastAttempt(time.Now().UTC())
 
